@@ -586,6 +586,9 @@ func streamPairs(w *W, rng *rand.Rand, tier string) {
 	if w.pairTag == 52 { // every pair is run under ~8 transformations
 		n /= 5
 	}
+	if w.pairTag == 53 && tier != "thorough" { // the containment oracle is the expensive one
+		n = n * 3 / 5
+	}
 	for it := 0; it < n; it++ {
 		sc := int64(rng.Intn(3))
 		lim := int64(4) << uint(rng.Intn(12))
@@ -631,6 +634,9 @@ func streamPairs(w *W, rng *rand.Rand, tier string) {
 	}
 	if w.pairTag == 52 {
 		nm, nb = nm/5, nb/4
+	}
+	if w.pairTag == 53 && tier != "thorough" {
+		nb = nb * 3 / 5
 	}
 	streamMultiHole(w, rng, nm)
 	streamBigIndexed(w, rng, nb)
